@@ -255,17 +255,23 @@ theorem uq_pauseNak {s : State} (h : UQ s) (now : Nat) :
     UQ { s with timer := { s.timer with nak := s.timer.nak.pause now } } :=
   uq_frame' h rfl rfl rfl rfl rfl (by show Idle (s.timer.nak.pause now); rw [idle_pause h.idle]; exact h.idle) h.fin
 
-theorem uq_handleTimeout {s : State} (h : UQ s) (now : Nat) : UQ (handleTimeout s now) := by
+theorem uq_handleTimeoutMain {s : State} (h : UQ s) (now : Nat) : UQ (handleTimeoutMain s now) := by
   have h1 : UQ (handleInactivity s now).1 := uq_handleInactivity h now
   have hi : Idle (handleInactivity s now).1.timer.nak := h1.idle
   have h2 := uq_pauseNak h1 now
   dsimp only at h2
-  simp only [handleTimeout, handleDelayed_nil h.delayed, idle_timeoutOccurred hi]
+  simp only [handleTimeoutMain, handleDelayed_nil h.delayed, idle_timeoutOccurred hi]
   repeat' split
   all_goals first
     | contradiction
     | exact uq_handleAckTimer h2 _ _
     | uq_auto [uq_handleAckTimer]
+
+
+theorem uq_handleTimeout {s : State} (h : UQ s) (now : Nat) : UQ (handleTimeout s now) := by
+  simp only [handleTimeout, unackFinishedLimit]
+  repeat' split
+  all_goals uq_auto [uq_handleTimeoutMain]
 
 theorem uq_cancel {s : State} (h : UQ s) (now : Nat) : UQ (cancel s now) := by
   simp only [cancel]
@@ -550,15 +556,29 @@ end Cfdp.Loop
 namespace Cfdp.Recv
 open Cfdp.Codec Cfdp.Gen Cfdp.Timer
 
-/-- **C18 (receiver, closure ends quietly).**  Nothing is acknowledged in unacknowledged mode: when
-the repeated closure Finished PDU reaches the positive-ACK limit, the receiver just ends — no fault
-is declared, no further indication is raised and the outcome already reported stands. -/
+/-- **C18 (receiver, closure ends quietly).**  Nothing is acknowledged in unacknowledged mode: while
+the receiver repeats its closure Finished PDU, reaching the positive-ACK limit or the inactivity
+limit declares no fault — the transaction just ends, no further indication is raised and the
+outcome already reported stands. -/
 theorem C18_recv_closure_ends_quietly (s : State) (now : Nat) (hm : s.cfg.mode = .Unacknowledged)
-    (hl : (s.timer.ack.limitReached now).2 = true) :
-    (handleAckTimer s now false).state = .Terminated ∧ (handleAckTimer s now false).out = s.out ∧
-    (handleAckTimer s now false).finished = s.finished ∧ (handleAckTimer s now false).condition = s.condition := by
-  have : (s.cfg.mode == TransmissionMode.Unacknowledged) = true := by rw [hm]; rfl
-  simp only [handleAckTimer, hl, if_true, Bool.false_eq_true, if_false, this, shutdown, and_self]
+    (hs : s.state ≠ .Suspended) (hf : s.recvState = .Finished)
+    (hl : (s.timer.ack.limitReached now).2 = true ∨ (s.timer.inactivity.limitReached now).2 = true) :
+    (handleTimeout s now).state = .Terminated ∧ (handleTimeout s now).out = s.out ∧
+    (handleTimeout s now).finished = s.finished ∧ (handleTimeout s now).condition = s.condition ∧
+    (handleTimeout s now).delivery = s.delivery := by
+  have h1 : (s.cfg.mode == TransmissionMode.Unacknowledged) = true := by rw [hm]; rfl
+  have h2 : (s.recvState == RecvState.Finished) = true := by rw [hf]; rfl
+  have h3 : (s.state == TransactionState.Suspended) = false := by cases hst : s.state <;> simp_all
+  have h4 : (unackFinishedLimit s now).2 = true := by
+    simp only [unackFinishedLimit]
+    split
+    · rfl
+    · rcases hl with hl | hl
+      · contradiction
+      · exact hl
+  simp only [handleTimeout, h1, h2, h3, h4, Bool.and_self, Bool.false_eq_true, if_false, if_true, shutdown]
+  simp only [unackFinishedLimit]
+  split <;> simp
 
 end Cfdp.Recv
 
